@@ -150,13 +150,13 @@ def dumpPattern (s : Sys) : String :=
     if present ≠ m.exts.length then pat ++ "!" else pat
 
 def splitsLeaf (acts : List Action) : Bool :=
-  acts.any (fun a => match a with
-    | .io (.pg (.inode ..) _) _ => true
+  (ioSteps acts).any (fun s => match s with
+    | .pg (.inode ..) _ => true
     | _ => false)
 
 def writesLiveLeaf (m : Mem) (acts : List Action) : Bool :=
-  m.proot != 0 && acts.any (fun a => match a with
-    | .io (.pg (.leaf k ..) _) _ => k == m.proot
+  m.proot != 0 && (ioSteps acts).any (fun s => match s with
+    | .pg (.leaf k ..) _ => k == m.proot
     | _ => false)
 
 /-- execute one operation token; returns the new system, the result token and the step log -/
@@ -172,14 +172,13 @@ def execOp (s : Sys) (tok : Tok) : Sys × String × String :=
     else
       match out.err with
       | some e =>
-        let m := if isOpen then none else out.mem
+        let m := if isOpen then none else some out.mem
         ({ s' with fs := out.fs, mem := m }, s!"err:{e.name}{suffix}", labels out.steps)
-      | none => ({ s' with fs := out.fs, mem := okMem.orElse (fun _ => out.mem) }, s!"ok{suffix}", labels out.steps)
+      | none => ({ s' with fs := out.fs, mem := okMem.orElse (fun _ => some out.mem) }, s!"ok{suffix}", labels out.steps)
   match tok with
   | .openT =>
     let s := { s with mem := none }
-    let b := openProg cfg s.fs.pv s.fs.wf
-    let out := b.run s.stop s.fs {}
+    let out := run (openA cfg s.fs.pv s.fs.wf) s.stop s.fs {}
     let (s', r, st) := finish s out none true
     -- a handle exists only if open returned Ok
     let s' := if out.dead || out.err.isSome then { s' with mem := none } else s'
@@ -191,8 +190,7 @@ def execOp (s : Sys) (tok : Tok) : Sys × String × String :=
     match s.mem with
     | none => ({ s with stop := .none, armed := false }, if s.armed then "closed~" else "closed", "-")
     | some m =>
-      let b := commitProg cfg m s.fs.pv s.fs.wf tx
-      let out := b.run s.stop s.fs m
+      let out := run (commitA cfg m s.fs.pv s.fs.wf tx) s.stop s.fs m
       -- trigger bookkeeping
       let nWal := 3 * (txRecs 0 0 tx).length + 1
       let idmapFault := match s.stop with | .faultAt k => out.fired && k ≥ nWal | _ => false
@@ -204,10 +202,10 @@ def execOp (s : Sys) (tok : Tok) : Sys × String × String :=
     match s.mem with
     | none => ({ s with stop := .none, armed := false }, if s.armed then "closed~" else "closed", "-")
     | some m =>
-      let b := compactProg cfg m s.fs.pv s.fs.wf
-      let out := b.run s.stop s.fs m
+      let acts := compactA cfg m s.fs.pv s.fs.wf
+      let out := run acts s.stop s.fs m
       let risky := match s.stop with
-        | .crashAt _ => out.dead && (splitsLeaf b.acts || (writesLiveLeaf m b.acts && s.var.torn.isSome))
+        | .crashAt _ => out.dead && (splitsLeaf acts || (writesLiveLeaf m acts && s.var.torn.isSome))
         | _ => false
       let tornAppend := s.tornTail && !cfg.tailTolerant && !m.runs.isEmpty
       let s := { s with flags := { s.flags with liveTree := s.flags.liveTree || risky,
@@ -217,8 +215,7 @@ def execOp (s : Sys) (tok : Tok) : Sys × String × String :=
     match s.mem with
     | none => ({ s with stop := .none, armed := false }, if s.armed then "closed~" else "closed", "-")
     | some m =>
-      let b := closeProg cfg m s.fs.pv s.fs.wf
-      let out := b.run s.stop s.fs m
+      let out := run (closeA cfg m s.fs.pv s.fs.wf) s.stop s.fs m
       let (s', r, st) := finish s out none false
       ({ s' with mem := none }, r, st)
   | .drop => ({ s with mem := none, stop := .none, armed := false }, if s.armed then "ok~" else "ok", "-")
@@ -326,19 +323,16 @@ def step (stream : String) (_ : Unit) (ws : List String) : Unit × String × Str
         if stream = "fault" then [Tok.fault k]
         else
           -- pending operations at the moment of death
-          let (sk, _, _) := execOp { s0 with stop := .crashAt k, var := {}, armed := true } (toks.getD idx .dump)
-          -- `sk.fs` is already the process-death image; recompute the counts from a dry run
-          let _ := sk
           let b := match toks.getD idx .dump, s0.mem with
-            | .openT, _ => some ((openProg cfg s0.fs.pv s0.fs.wf), ({} : Mem))
-            | .tx n e p, some m => some (commitProg cfg m s0.fs.pv s0.fs.wf (mkTx (s0.txs.length + 1) n e p), m)
-            | .compact, some m => some (compactProg cfg m s0.fs.pv s0.fs.wf, m)
-            | .close, some m => some (closeProg cfg m s0.fs.pv s0.fs.wf, m)
+            | .openT, _ => some ((openA cfg s0.fs.pv s0.fs.wf), ({} : Mem))
+            | .tx n e p, some m => some (commitA cfg m s0.fs.pv s0.fs.wf (mkTx (s0.txs.length + 1) n e p), m)
+            | .compact, some m => some (compactA cfg m s0.fs.pv s0.fs.wf, m)
+            | .close, some m => some (closeA cfg m s0.fs.pv s0.fs.wf, m)
             | _, _ => none
           match b with
           | none => []
-          | some (b, m0) =>
-            let out := b.run (.crashAt k) s0.fs m0
+          | some (acts, m0) =>
+            let out := run acts (.crashAt k) s0.fs m0
             let np := out.fs.pj.length
             let nw := out.fs.wf.length - out.fs.wdur
             let nr := if out.fs.ren.isSome then 1 else 0
